@@ -285,6 +285,28 @@ CHECKS = {
    note=BASE_NOTE),
 }
 
+EXTRA = {
+ "C02": " Added in session 5 (Props/C02more.lean): tangent rule under translation / chord rescaling (sampling density) / magnification, `tangentVec_eq_dot_iff` (coded = true tangent ⇔ sign condition), whole `get_vector_from_vertex` closed forms, one row pair per junction, ignore-four option, each column written in at most two candidate rows; witnesses for the 0 ↦ +1 sign rule.",
+ "C04": " Added in session 5 (Props/C04more.lean): curvature ingredients for 2/3-point interfaces, collinear ⇔ zero turning, similarity/rotation/reflection of `curvParts`, rows sum to zero, objective invariant under constant shift and joint row flips, bordered solve linear, `pressureSystem_normal_eq_unique`.",
+ "C08": " Added in session 5 (Props/C08tissue.lean): tissue level: what `dedup` keeps (`dedup_mem_iff`), every interface of `bigEdgesList` runs junction-to-junction, no reverse duplicates, every mesh edge of a cell with a junction is covered, and lies in exactly one interface on consistent meshes (`bigEdgesList_unique_per_edge`), `own_big_edges`, `get_big_edge_by_cells` characterised / found / symmetric, two-point witness.",
+ "C10": " Added in session 5 (Props/C10hist.lean): histories of any length: `step_commute` (operations touching no common frame commute, whole state), `run_erase_other_frames` (frame t's view after a history = after its sub-history touching t), idempotent re-solves, closed forms of what any history leaves on a frame, `run_report_table` (every clause of the statement about the tension table after any history), `run_report_depends_on_last`; witness that `get_system_velocity_per_frame` touches every frame of its range.",
+ "C11": " Added in session 5 (Props/C11more.lean): `pick` characterised (`pick_eq_self_iff`, `pick_length_eq_min`, `pick_mem_iff`, coarser-after-finer law + witnesses for the converse and for orientation dependence), whole-function relations for `generateMesh` (position-wise `Forall₂` with the interfaces, fixed point, exact edge count, surviving cells ⇔ cells with a kept vertex, cells with a junction survive).",
+ "C13": " Added in session 5 (Props/C13more.lean): velocities under affine maps of space and of the clock, locality (`calculateVelocity_congr_local`), backward branch with no partner / no map, `keyError` ⇔ the vertex itself is absent, right-hand side independent of junction order.",
+ "C14": " Added in session 5 (Props/C14whole.lean): whole parser: `serialise` of an abstract dump and `parse_serialise` (`buildLattice (serialise d) = ok d.parsed` for every wrapping and size), ids preserved, reversed signed loops, pressures by position (+ D24 witness / partial), orphan removal idempotent / clean, `create_serialise_consistent`.",
+ "C16": " Added in session 5 (Props/C16more.lean): angle test invariant under independent positive rescaling of the two directions and under rotation/reflection-plus-scaling; limits 0 and > π; monotone in the limit (`exceeds_mono`, `deletes_mono`, `used_antitone`); counting; `realign` is a bijection onto vectors with −1 at excluded positions, independent of storage direction and of order/multiplicity of `deletes`.",
+ "C17": " Added in session 5 (Props/C17more.lean): rescale/offset enter only through the placed vertices, layers 0 / one vertex / short and repeated-vertex polylines, order inside an interface irrelevant without integration, one entry per interface, permutation of the interface list, integrated intensity additive, normalised values sum to the count / idempotent / keep ratios, whole write-back = zip; witnesses: band not reversal invariant, median not additive, integrated uniform image not equal.",
+ "C18": " Added in session 5 (Props/C18covar.lean): row-order invariance (`sigma_perm`, `sigmas_perm`), translation, exact scaling law, rotation covariance R σ Rᵀ with invariant trace/determinant, reflection, real principal stresses (discriminant ≥ 0), every direction principal under pure pressure, trace formulas.",
+ "C19": " Added in session 5 (Props/C19more.lean): `remove_infinite_regions` = filter (idempotent, monotone in the cut-off, translation invariant diameter test), unbounded regions ignored, stored points = rounded corners of kept bounded regions, rounding error ≤ 1/2000, shared ridge ⇒ opposite signed ids, cell cycles cover their corners and share vertices.",
+ "C20": " Added in session 5 (Props/C20cycle.lean): navigation iterated (`nextIdx_iterate`, returns after n steps, orbit covers the cycle, reversed storage gives the same geometric successor), sign under shift/translation/scaling/reflection, triangle and fan formulas (CCW ⇒ negative), perimeter terms under translation/scale/shift/reversal, centroid laws, `neighbors_symm` on consistent meshes (+ witness).",
+ "C12": " Added in session 5 (Props/C12more.lean): `find_best` / the whole assignment loop / `create_mapping` invariant under similarities and change of unit and origin, idempotent and re-feedable, keys = guess keys ∪ frame-0 ids, loop over `a ++ b` = two loops, round trips on the public function and on the built maps in both directions, small motion over whole series (n-fold successor, and back).",
+ "C06": " Added in session 5 (Props/C06more.lean): the position maps compose and have inverses of the same kind (`mapP_comp/_id`, `rotP_comp/_inverse`, `flipP_rotP`, round trips), so every per-generator invariance extends to composites and holds both ways; guards are pose independent; pressure system identical under shift∘scale∘rotation, force matrix under shift∘scale; `tangentVecDot_similarity`; `adimensional_mean_units` (the whole velocity right-hand side is unit independent under any rounding).",
+ "C01": " Added in session 5 (Props/C01more.lean): similarity (Möbius-image) maps keep lengths ratios, angles and orientation, compose and invert; balance of the turned pulls ⇔ balance of the originals, tissue-wide with a different factor per junction (`moebius_keeps_balance`, `moebius_static_inference`); the report is invariant under a common scale of the tensions, keeps every ratio, is idempotent and relabels with the interfaces; `augmented_solution_iff`; `balance_unique_up_to_scale`.",
+ "C03": " Added in session 5 (Props/C03more.lean): the right-hand side built from a whole renumbered series equals the true velocities (forward and, at the last frame, backward), hence `series_forward/_backward_balance` and `series_recovers_tensions` end to end; right-hand side under translation, affine maps of space and of the clock; `exact_rhs_solves_iff` (mean one is necessary), `backends_agree`, `rhs_round3_bound` / `nnls_round3_fit_bound` with the concrete three-decimal rounding.",
+ "C05": " Added in session 5 (Props/C05more.lean): the certificate is exact: `kkt_iff_minimiser` (KKT at slack 0 ⇔ non-negative minimiser; necessity is new), `stationary_iff_minimiser`, fitted values unique even when rank deficient, unique point under coercivity, `kkt_near_minimiser` for inconsistent systems too, certificates survive rescaling and row permutation, the augmented objective written out, `mean_eq_one_of_consistent`.",
+ "C07": " Added in session 5 (Props/C07more.lean): `bigEdgesList_restoreAll`: every cell shifted / reversed at once, the dictionary permuted, ids free ⇒ same interfaces up to direction and same tension rows (the full quantifier; earlier theorems changed one cell per step); renumbering of cell ids and of mesh-edge ids leaves interfaces, classification, own cells, pressure rows and the whole pressure system identical; `are_neighbours` independent of cycle start.",
+ "C09": " Added in session 5 (Props/C09more.lean): `failing_nil_iff`; adding one fresh vertex / edge / cell keeps consistency (any interleaving of constructor calls), `delCell_consistent` (all six clauses), `delEdge_preserves_five`, deletions idempotent, `surfaceEvolver_consistent`, orphan removal idempotent / identity when covered, consistency depends on topology only (`consistent_mapCoords`), input lists may be permuted and cycles rotated / reversed, own lists are permutations of the incident edges / containing cells, `ownEdges_length_eq_degree`; eight witnesses for each well-formedness clause."
+}
+
 NOT_APPLICABLE = {
 }
 
@@ -301,7 +323,7 @@ def main():
                 "evidence_file": f"evidence/{pid}.json",
                 "replay_cmd_template": f"./check {pid} --replay {{path}}",
                 "engine": "lean-model+correspondence",
-                "level_claimed": {"category": c["category"], "text": c["text"], "design_ref": c["design_ref"]},
+                "level_claimed": {"category": c["category"], "text": c["text"] + EXTRA.get(pid, ""), "design_ref": c["design_ref"]},
                 "level_note": c["note"],
                 "technique": c["technique"],
             })
